@@ -17,7 +17,7 @@ CONSTANTS MaxN, Variant
 VARIABLES n, W, fid, out
 vars == << n, W, fid, out >>
 
-WidthPatterns == { << <<1, 1>>, <<1, 1>>, <<1, 1>> >>, << <<1, 3>>, <<2, 1>>, <<3, 2>> >>, << <<2, 2>>, <<1, 3>>, <<1, 2>> >> }
+WidthPatterns == { << <<1, 1, 1>>, <<1, 1, 1>>, <<1, 1, 1>> >>, << <<1, 3, 2>>, <<2, 1, 3>>, <<3, 2, 1>> >>, << <<2, 2, 3>>, <<1, 3, 1>>, <<1, 2, 2>> >> }
 NumFields == 4
 \* integer test fields: f = 0 generic polynomial, 1..3 a single non-zero component pair
 EF(f, c, q) == IF f = 0 THEN (c + 1) * (q[1] + 2) - 3 * q[2] + q[3] * q[3] - c * c
